@@ -1,5 +1,6 @@
 import GrolProofs.LexNext
 import GrolProofs.LexString
+import GrolProofs.LexLines
 import Grol.LexSuite
 /-
 C16 — the lexer is lossless: tokens tile the input.
@@ -734,6 +735,126 @@ theorem C16.unterminated_string (s : State) (hm : isMarker (next s).1)
     simp only [] at ag
     rw [ag] at hm
     simp [isMarker, internTok] at hm
+
+/-! ### (7) line bookkeeping: `lastNewLine`, `lineNumber`, `hadNewline`, `hadWhitespace` -/
+
+/-- `next` keeps the line invariant: `lastNewLine ≤ pos`, `lastNewLine ≤ len(input)`, `lastNewLine`
+is 0 or just after a newline byte, `1 ≤ lineNumber ≤ 1 + #newlines before pos` -/
+theorem C16.lineInv_next (s : State) (h : LineInv s) : LineInv (next s).2 := by
+  have h1 := (skipWhitespace_flags s).1 h
+  have sp := next_spec s
+  have t := C16.tiling s
+  rw [sp.1]
+  exact h1.advance t.2.2.2.1
+
+theorem C16.lineInv_iter (s : State) (h : LineInv s) (k : Nat) : LineInv (iter k s) := by
+  induction k with
+  | zero => exact h
+  | succ k ih => rw [iter_succ']; exact C16.lineInv_next _ ih
+
+/-- after every call, from the initial state of either mode: `LastNewLine() ≤ min Pos() len(input)`
+(the first hypothesis of the parser's `StreamWF`) -/
+theorem C16.lastNewLine_le (input : Array UInt8) (lineMode : Bool) (k : Nat) :
+    (next (iter k (State.new input lineMode))).2.lastNewLine
+      ≤ min (next (iter k (State.new input lineMode))).2.pos input.size := by
+  have h := C16.lineInv_next _ (C16.lineInv_iter _ (LineInv.new input lineMode) k)
+  have e : (next (iter k (State.new input lineMode))).2.input = input := by
+    have : ∀ k, (iter k (State.new input lineMode)).input = input := by
+      intro k
+      induction k with
+      | zero => rfl
+      | succ k ih => rw [iter_succ', (C16.tiling _).2.2.2.2.1]; exact ih
+    rw [(C16.tiling _).2.2.2.2.1]; exact this k
+  have := h.le_pos
+  have := h.le_size
+  rw [e] at this
+  omega
+
+/-- the flags after the call say exactly what lies between the previous token and this one -/
+theorem C16.flags_exact (s : State) :
+    ((next s).2.hadWhitespace = true ↔ s.pos < start s)
+    ∧ ((next s).2.hadNewline = true ↔ ∃ i, s.pos ≤ i ∧ i < start s ∧ peekAt s.input i = 10) := by
+  have f := C16.flags s
+  have k := skipWhitespace_flags s
+  rw [f.1, f.2]
+  exact ⟨k.2.1, k.2.2⟩
+
+/-- on a NUL byte / at the end of the input the call returns the end marker -/
+theorem next_of_zero (s : State) (h : peekAt s.input s.pos = 0) : isMarker (next s).1 := by
+  have sk := skipWhitespace_spec s
+  have hpos : (skipWhitespace s).pos = s.pos := by
+    apply Classical.byContradiction
+    intro hne
+    have hlt : s.pos < (skipWhitespace s).pos := by have := sk.ge; omega
+    have := sk.gap s.pos (Nat.le_refl _) hlt
+    rw [h] at this
+    revert this; decide
+  have h0 : peekAt (skipWhitespace s).input (skipWhitespace s).pos = 0 := by
+    rw [sk.input, hpos]; exact h
+  have e : next s = (eolEof (skipWhitespace s).lineMode,
+      { (skipWhitespace s) with pos := (skipWhitespace s).pos + 1 - 1 }) := by
+    show nextSwitch _ _ _ = _
+    unfold nextSwitch
+    simp only [State.readChar, State.peekChar, h0]
+    rfl
+  rw [e]; rfl
+
+theorem src_of_linecomment (t : Tok) (wf : t.WF) (h : t.type = LINECOMMENT) : t.src = .intern := by
+  unfold Tok.WF at wf
+  split at wf
+  · rcases wf.1 with e | e <;> (rw [e] at h; cases h)
+  · obtain ⟨c, _, hc⟩ := wf
+    have : ∀ p ∈ cTokens, p.2 ≠ LINECOMMENT := by decide
+    exact absurd h (this _ (lookup_mem _ _ _ hc))
+  · obtain ⟨a, b, _, hc⟩ := wf
+    have : ∀ p ∈ c2Tokens, p.2 ≠ LINECOMMENT := by decide
+    exact absurd h (this _ (lookup_mem _ _ _ hc))
+  · assumption
+  · cases hl : keywords.lookup t.lit with
+    | none => rw [hl] at wf; simp only [Option.getD] at wf; rw [wf] at h; cases h
+    | some ty =>
+      rw [hl] at wf; simp only [Option.getD] at wf
+      have : ∀ p ∈ keywords, p.2 ≠ LINECOMMENT := by decide
+      exact absurd (wf.symm.trans h) (this _ (lookup_mem _ _ _ hl))
+  · exact wf.elim
+  · exact wf.elim
+
+/-- a line comment is followed by a token with `HadNewline()`, or by the end marker (the second
+hypothesis of the parser's `StreamWF`) -/
+theorem C16.after_linecomment (s : State) (h : (next s).1.type = LINECOMMENT) :
+    (next (next s).2).2.hadNewline = true ∨ isMarker (next (next s).2).1 := by
+  have hsrc := src_of_linecomment _ (C16.next_wf s) h
+  have lc := C16.linecomment_span s hsrc h
+  have t := C16.tiling s
+  have hstop := lc.2.2.2.2
+  have : peekAt s.input (next s).2.pos = 10 ∨ peekAt s.input (next s).2.pos = 0 := by
+    unfold notEOL at hstop
+    simp only [Bool.and_eq_false_imp, bne_iff_ne, ne_eq, bne_eq_false_iff_eq] at hstop
+    by_cases h10 : peekAt s.input (next s).2.pos = 10
+    · exact Or.inl h10
+    · exact Or.inr (hstop h10)
+  rcases this with h10 | h0
+  · left
+    rw [(C16.flags_exact (next s).2).2]
+    have sk := skipWhitespace_spec (next s).2
+    refine ⟨(next s).2.pos, Nat.le_refl _, ?_, by rw [t.2.2.2.2.1]; exact h10⟩
+    unfold start
+    have hstp := sk.stop
+    rw [t.2.2.2.2.1] at hstp
+    apply Classical.byContradiction
+    intro hn
+    have : (skipWhitespace (next s).2).pos = (next s).2.pos := by have := sk.ge; omega
+    rw [this, h10] at hstp
+    revert hstp; decide
+  · right
+    exact next_of_zero _ (by rw [t.2.2.2.2.1]; exact h0)
+
+/-- `lineNumber` is *not* "1 + number of newlines before pos": newlines inside strings and block
+comments are not counted (only `skipWhitespace` counts).  Input: a backquoted string holding a
+newline, then `x`: after both tokens `lineNumber` is still 1 although a newline lies before `pos`. -/
+example : (iter 2 (State.new #[96, 10, 96, 32, 120] false)).lineNumber = 1
+    ∧ countNL #[96, 10, 96, 32, 120] (iter 2 (State.new #[96, 10, 96, 32, 120] false)).pos = 1 := by
+  decide +kernel
 
 /-! ### non-vacuity: the three repaired inputs, evaluated by the kernel -/
 
